@@ -205,6 +205,26 @@ func runC09(c *Ctx) {
 			}
 		}
 	}
+	// ... and names made of dots: an element that merely BEGINS with ".." ("..a", "...") is an
+	// ordinary in-root name.  In-root = the joined path stays at or below the root.
+	for _, rt := range []string{"/a", "/a/b", "/"} {
+		for _, nm := range allStrings([]byte{'a', '.', '/'}, 5) {
+			joined := filepath.Join(rt, string(nm))
+			if !(joined == rt || rt == "/" || strings.HasPrefix(joined, rt+"/")) || !strings.Contains(string(nm), ".") {
+				continue
+			}
+			if rt == "/" && strings.HasPrefix(filepath.Clean(string(nm)), "..") {
+				continue // a relative name that climbs above "/": C08's business
+			}
+			id := fmt.Sprintf("rd%d", rk)
+			rk++
+			realpathCase(c, id, []byte(rt), nm)
+			bp := afero.NewBasePathFs(afero.NewMemMapFs(), rt).(*afero.BasePathFs)
+			if got, err := bp.RealPath(string(nm)); err != nil || got != joined {
+				c.Oracle("FAIL %s realpath-not-join:dots root=%q name=%q: got %q, %v; want %q", id, rt, nm, got, err, joined)
+			}
+		}
+	}
 	k := 0
 	parts := []string{"/", "/a", "a", "/a/b", "a/", "./a", "//a/", ".", "a/../b"}
 	rels := []string{"f", "/f", "d/f", "", ".", "x/../f", "//d//f", "../f"}
